@@ -318,17 +318,17 @@ def rand_graph(rng, L, idbase=0, maxw=3, nops=3, charges=True):
     return g
 
 
-def rand_tree(rng, rem, nops=3, pleaf=0.25, maxch=3, root=True):
-    """Returns (OpTreeNode, polynomial with variable-length words)."""
+def rand_tree(rng, rem, nops=3, pleaf=0.25, maxch=3, root=True, pzero=0.0):
+    """Returns (OpTreeNode, polynomial with variable-length words). pzero: probability of an exactly-zero edge coefficient."""
     if rem == 0 or (not root and rng.random() < pleaf):
         return ptn.OpTreeNode([], 0), {(): 1.0}
     nch = int(rng.integers(1, maxch + 1))
     node = ptn.OpTreeNode([], 0)
     poly = {}
     for _ in range(nch):
-        child, cp = rand_tree(rng, rem - 1, nops, pleaf, maxch, root=False)
+        child, cp = rand_tree(rng, rem - 1, nops, pleaf, maxch, root=False, pzero=pzero)
         oid = int(rng.integers(0, nops))
-        co = float(rng.choice([-1, .5, 1, 2]))
+        co = 0.0 if rng.random() < pzero else float(rng.choice([-1, .5, 1, 2]))
         node.add_child(ptn.OpTreeEdge(oid, co, child))
         for w, c in cp.items():
             poly[(oid,) + w] = poly.get((oid,) + w, 0) + co * c
